@@ -198,8 +198,8 @@ func worker(prop string, seed uint64, tier string, from, stride, maxRuns int, de
 					rf.Detail = mv.Detail
 				}
 			}
-			os.MkdirAll(filepath.Join(verif, "replays"), 0755)
-			name := filepath.Join(verif, "replays", fmt.Sprintf("%s-%d-%d-%08x.json", prop, seed, run, fnv32(sig)))
+			os.MkdirAll(replayDir(verif), 0755)
+			name := filepath.Join(replayDir(verif), fmt.Sprintf("%s-%d-%d-%08x.json", prop, seed, run, fnv32(sig)))
 			b, _ := json.MarshalIndent(rf, "", " ")
 			if err := os.WriteFile(name, b, 0644); err == nil {
 				if line.Replays == nil {
@@ -479,7 +479,7 @@ func check(prop string, seed uint64, tier string, maxRuns, workers int, base, ve
 
 	fmt.Printf("VERIF_SEED=%d property=%s tier=%s runs<=%d workers=%d budget=%ds\n", seed, prop, tier, tc.runs, workers, tc.budgetS)
 	// replay files of earlier invocations for this property are stale once we re-run it
-	if old, _ := filepath.Glob(filepath.Join(verif, "replays", prop+"-*.json")); len(old) > 0 {
+	if old, _ := filepath.Glob(filepath.Join(replayDir(verif), prop+"-*.json")); len(old) > 0 {
 		for _, f := range old {
 			os.Remove(f)
 		}
@@ -652,7 +652,7 @@ func check(prop string, seed uint64, tier string, maxRuns, workers int, base, ve
 		fmt.Println(v)
 	}
 	// keep only the replay files that a VIOLATION line refers to
-	if all, _ := filepath.Glob(filepath.Join(verif, "replays", prop+"-*.json")); len(all) > 0 {
+	if all, _ := filepath.Glob(filepath.Join(replayDir(verif), prop+"-*.json")); len(all) > 0 {
 		keep := map[string]bool{}
 		for _, s := range sigs {
 			if matchKnown(known, s) == nil {
@@ -754,4 +754,13 @@ func short(s string, n int) string {
 		return s[:n]
 	}
 	return s
+}
+
+// replayDir: /verif/replays unless VERIF_REPLAY_DIR says otherwise (development: runs against
+// modified copies of the repository must not touch the replay files of the real tree).
+func replayDir(verif string) string {
+	if d := os.Getenv("VERIF_REPLAY_DIR"); d != "" {
+		return d
+	}
+	return filepath.Join(verif, "replays")
 }
